@@ -3,6 +3,7 @@
 package style
 
 import (
+	"sync"
 	"math/rand"
 	"servitor/ansi"
 	"servitor/config"
@@ -31,6 +32,13 @@ type verifBuilder struct {
 	ids    map[rune]string
 	expect map[string]*verifExpect
 	narrow bool
+	spaces []rune
+}
+
+func verifSpaces(rng *rand.Rand) []rune {
+	all := []rune{0x00a0, 0x3000, 0x2003, 0x2009, 0x202f, 0x205f, 0x2000, 0x200a}
+	rng.Shuffle(len(all), func(i, j int) { all[i], all[j] = all[j], all[i] })
+	return all
 }
 
 func verifRGB(s string) []int {
@@ -48,7 +56,21 @@ func (b *verifBuilder) leaf() (string, []string) {
 	var sb strings.Builder
 	ids := []string{}
 	for i := 0; i < n; i++ {
-		switch b.rng.Intn(8) {
+		switch b.rng.Intn(9) {
+		case 8:
+			/* white space that is not the blank or a line break (no-break space, ideographic space, the fixed-width
+			   spaces): it occupies a column and carries its styling like any character; each kind once per text */
+			if len(b.spaces) == 0 {
+				sb.WriteString(" ")
+				break
+			}
+			r := b.spaces[0]
+			b.spaces = b.spaces[1:]
+			id := "sp" + strconv.Itoa(int(r))
+			b.ids[r] = id
+			b.expect[id] = &verifExpect{Bools: []int{}, Fg: [][]int{}, Bg: [][]int{}}
+			ids = append(ids, id)
+			sb.WriteRune(r)
 		case 0:
 			sb.WriteString(" ")
 		case 1:
@@ -191,7 +213,7 @@ func TestVerifStyle(t *testing.T) {
 	defer out.Close()
 	rng := verifkit.Rand()
 	for i := 0; i < in.Random; i++ {
-		b := &verifBuilder{rng: rng, next: 0x4e00, ids: map[rune]string{}, expect: map[string]*verifExpect{}}
+		b := &verifBuilder{rng: rng, next: 0x4e00, ids: map[rune]string{}, expect: map[string]*verifExpect{}, spaces: verifSpaces(rng)}
 		var text string
 		ops := []string{}
 		panicked, what := verifkit.Try(func() {
@@ -215,5 +237,72 @@ func TestVerifStyle(t *testing.T) {
 		}
 		out.Emit(verifkit.M{"ev": "out", "kind": "styled", "chk": []string{"noctl", "neutral", "attrs"},
 			"toks": verifkit.Toks(text, b.ids), "w": 0, "h": 0, "expect": b.expect, "ops": ops, "raw": text})
+	}
+	/* styling from several goroutines at once (posts of a page are built side by side): every text keeps its own
+	   characters, in order, with their own attributes */
+	type job struct {
+		ids    map[rune]string
+		expect map[string]*verifExpect
+		order  []string
+		runes  string
+		alone  string
+		got    string
+	}
+	style := func(text string, k int) string {
+		switch k % 4 {
+		case 0:
+			return Bold(Color(text))
+		case 1:
+			return Underline(Code(text))
+		case 2:
+			return Italic(Red(Highlight(text)))
+		}
+		return Strikethrough(Link(text, 7))
+	}
+	c := config.Parsed.Style.Colors
+	for round := 0; round < 1+in.Random/300; round++ {
+		jobs := make([]*job, 8)
+		for k := range jobs {
+			j := &job{ids: map[rune]string{}, expect: map[string]*verifExpect{}}
+			for n := 0; n < 30+rng.Intn(30); n++ {
+				r := rune(0x4e00 + 100*k + n)
+				id := "g" + strconv.Itoa(int(r-0x4e00))
+				j.ids[r], j.order, j.runes = id, append(j.order, id), j.runes+string(r)
+				e := &verifExpect{Bools: []int{}, Fg: [][]int{}, Bg: [][]int{}}
+				switch k % 4 {
+				case 0:
+					e.Bools, e.Fg = []int{1}, [][]int{verifRGB(c.Primary)}
+				case 1:
+					e.Bools, e.Bg = []int{4}, [][]int{verifRGB(c.Code)}
+				case 2:
+					e.Bools, e.Fg, e.Bg = []int{3}, [][]int{verifRGB(c.Error)}, [][]int{verifRGB(c.Highlight)}
+				default:
+					e.Bools, e.Fg = []int{9, 4}, [][]int{verifRGB(c.Primary)}
+				}
+				j.expect[id] = e
+			}
+			j.alone = style(j.runes, k)
+			jobs[k] = j
+		}
+		var wg sync.WaitGroup
+		for k, j := range jobs {
+			k, j := k, j
+			wg.Add(1)
+			go func() {
+				defer wg.Done()
+				verifkit.Try(func() {
+					for n := 0; n < 300; n++ {
+						if j.got = style(j.runes, k); j.got != j.alone {
+							break
+						}
+					}
+				})
+			}()
+		}
+		wg.Wait()
+		for _, j := range jobs {
+			out.Emit(verifkit.M{"ev": "out", "kind": "styled-concurrently", "chk": []string{"noctl", "neutral", "attrs", "glyphs"},
+				"toks": verifkit.Toks(j.got, j.ids), "w": 0, "h": 0, "expect": j.expect, "order": j.order, "ops": []string{}, "raw": j.got})
+		}
 	}
 }
